@@ -187,7 +187,7 @@ fn streams() -> Vec<Vec<Sym>> {
         by(&["A+2000ms:Cont", "A+65000ms:Cont", "A+2000ms:Cont", "B+2000ms:Cont", "A+2000ms:Cont"]),
     ]
 }
-const C13_STREAM_IDS: [usize; 6] = [0, 1, 2, 8, 4, 6];
+const C13_STREAM_IDS: [usize; 9] = [0, 1, 2, 8, 4, 6, 7, 3, 5];
 
 #[derive(Clone, Debug, PartialEq, Eq, Default)]
 struct Outcome {
@@ -632,7 +632,7 @@ impl Prop for SchedProp {
         Meta {
             id: "C13",
             level: "model_checking",
-            rule: "controlled-scheduler exploration (shuttle runtime, own bounded DFS scheduler: canonical order = running task first then ascending ids; delay bounding = every non-default choice costs 1, for all pipeline shapes; preemption bounding = only switching away from a runnable task costs 1, for the shapes where it stays feasible; bounds iterated 0,1,2,..) of 3-6 real threads: producer -> real lifecycle stage -> {none | plugins(Anonymize) | time sort | filter | sort+filter | plugins+sort+filter} -> consumer, every edge a sync_channel(capacity 0/1/2) written through the real sync_sender_send_delay_if_full, 6 message streams (flush at end / mid-stream confirmation / merge + out-of-order / confirmed lifecycle still receiving while another ECU is buffered at the end / suspend-resume / newer lifecycle confirmed before its still buffered predecessor), consumer = drain or drop the receiver after k messages. adlt's channel and sleep operations are shuttle's under cfg adlt_verif_sched, so every send/recv/sleep/spawn/join of harness and adlt code is a scheduling point. Oracle: drain => delivered sequence (sorted pipelines: multiset) and canonical final lifecycle table equal the sequential unbounded-channel reference, and the consumer thread finds every message's lifecycle published at delivery (C06 cross-thread); drop => every thread joins (no deadlock). Executions = complete schedules; non-trivial = all but the default schedule.".into(),
+            rule: "controlled-scheduler exploration (shuttle runtime, own bounded DFS scheduler: canonical order = running task first then ascending ids; delay bounding = every non-default choice costs 1, for all pipeline shapes; preemption bounding = only switching away from a runnable task costs 1, for the shapes where it stays feasible; bounds iterated 0,1,2,..) of 3-6 real threads: producer -> real lifecycle stage -> {none | plugins(Anonymize) | time sort | filter | sort+filter | plugins+sort+filter} -> consumer, every edge a sync_channel(capacity 0/1/2) written through the real sync_sender_send_delay_if_full, 9 message streams (flush at end / mid-stream confirmation / merge + out-of-order / confirmed lifecycle still receiving while another ECU is buffered at the end / suspend-resume / newer lifecycle confirmed before its still buffered predecessor), consumer = drain or drop the receiver after k messages. adlt's channel and sleep operations are shuttle's under cfg adlt_verif_sched, so every send/recv/sleep/spawn/join of harness and adlt code is a scheduling point. Oracle: drain => delivered sequence (sorted pipelines: multiset) and canonical final lifecycle table equal the sequential unbounded-channel reference, and the consumer thread finds every message's lifecycle published at delivery (C06 cross-thread); drop => every thread joins (no deadlock). Executions = complete schedules; non-trivial = all but the default schedule.".into(),
             assumptions: vec!["shuttle serialises tasks: weak-memory behaviours inside evmap/std are not explored".into(),
                 "evmap and other non-channel code run atomically between scheduling points".into(),
                 "preemption bound and per-configuration execution cap as listed in coverage.families (complete=false when a cap was hit)".into()],
